@@ -1,2 +1,143 @@
 (* Proofs for C09. *)
-From WI Require Import Lib.Base Lib.Info Model.State.
+From WI Require Import Lib.Base Model.State.
+From WI Require gen.Scan.
+From Coq Require Import Lia.
+
+Lemma globals_benign_now : globals_benign gen.Scan.globals = true.
+Proof. vm_compute. reflexivity. Qed.
+
+Lemma take_length_le : forall {A} n (l : list A), (n <= length l)%nat -> length (take n l) = n.
+Proof.
+  induction n as [|n IH]; intros l H; [reflexivity|].
+  destruct l as [|x l]; cbn [take length] in *; [lia|]. rewrite IH; lia.
+Qed.
+
+Lemma take_app_exact : forall {A} (a b : list A), take (length a) (a ++ b) = a.
+Proof. induction a as [|x a IH]; intros b; cbn [take length app]; [reflexivity|]. now rewrite IH. Qed.
+
+(* Go's append into spare capacity leaves the visible part of the shared slice unchanged *)
+Lemma go_append_visible : forall s ys, gslice_ok s = true ->
+  visible (fst (go_append s ys)) = visible s /\ snd (go_append s ys) = visible s ++ ys
+  /\ gslice_ok (fst (go_append s ys)) = true.
+Proof.
+  intros s ys Hok. unfold gslice_ok, gcap in Hok. apply Nat.leb_le in Hok.
+  unfold go_append, gcap. destruct (Nat.leb (slen s + length ys) (length (backing s))) eqn:E; cbn [fst snd].
+  - apply Nat.leb_le in E. split; [|split; [reflexivity|]].
+    + unfold visible. cbn [backing slen].
+      pose proof (take_length_le (slen s) (backing s) Hok) as Hl.
+      rewrite <- Hl at 1. apply take_app_exact.
+    + unfold gslice_ok, gcap. cbn [backing slen]. apply Nat.leb_le.
+      rewrite app_length. rewrite (take_length_le _ _ Hok). lia.
+  - split; [reflexivity|split; [reflexivity|]]. unfold gslice_ok, gcap. now apply Nat.leb_le.
+Qed.
+
+Lemma match_entry_inv : forall e tail, gslice_ok (ce_basex e) = true ->
+  let e' := fst (match_entry e tail) in
+  ce_name e' = ce_name e /\ visible (ce_basex e') = visible (ce_basex e) /\ ce_basey e' = ce_basey e
+  /\ gslice_ok (ce_basex e') = true
+  /\ snd (match_entry e tail) = bytes_eqb (visible (ce_basex e) ++ ce_basey e) tail.
+Proof.
+  intros e tail Hok. unfold match_entry.
+  destruct (go_append_visible (ce_basex e) (ce_basey e) Hok) as [Hv [Hs Hk]].
+  destruct (go_append (ce_basex e) (ce_basey e)) as [bx' joined]. cbn [fst snd] in *.
+  subst joined. repeat split; assumption.
+Qed.
+
+Lemma view_update_nth : forall st k e e', nth_error st k = Some e ->
+  ce_name e' = ce_name e -> visible (ce_basex e') = visible (ce_basex e) -> ce_basey e' = ce_basey e ->
+  view (update_nth k (fun _ => e') st) = view st.
+Proof.
+  induction st as [|x st IH]; intros k e e' Hn H1 H2 H3; destruct k; cbn in *; try discriminate.
+  - inversion Hn; subst. now rewrite H1, H2, H3.
+  - f_equal. eapply IH; eauto.
+Qed.
+
+Lemma state_ok_update_nth : forall st k e', state_ok st = true -> gslice_ok (ce_basex e') = true ->
+  state_ok (update_nth k (fun _ => e') st) = true.
+Proof.
+  induction st as [|x st IH]; intros k e' Hs He; destruct k; cbn in *; try reflexivity.
+  - apply andb_true_iff in Hs as [_ Hs]. now rewrite He, Hs.
+  - apply andb_true_iff in Hs as [Hx Hs]. rewrite Hx. now apply IH.
+Qed.
+
+Lemma state_ok_nth : forall st k e, state_ok st = true -> nth_error st k = Some e -> gslice_ok (ce_basex e) = true.
+Proof.
+  induction st as [|x st IH]; intros k e Hs Hn; destruct k; cbn in *; try discriminate.
+  - apply andb_true_iff in Hs as [Hx _]. now inversion Hn; subst.
+  - apply andb_true_iff in Hs as [_ Hs]. eapply IH; eauto.
+Qed.
+
+(* the answer to a request depends only on the view *)
+Definition answer (v : list (bytes * bytes * bytes)) (r : request) : option bool :=
+  match nth_error v (fst r) with
+  | None => None
+  | Some (_, bx, by_) => Some (bytes_eqb (bx ++ by_) (snd r))
+  end.
+
+Lemma do_request_inv : forall st r, state_ok st = true ->
+  view (fst (do_request st r)) = view st /\ state_ok (fst (do_request st r)) = true
+  /\ snd (do_request st r) = answer (view st) r.
+Proof.
+  intros st r Hs. unfold do_request, answer.
+  unfold view at 3. rewrite nth_error_map.
+  destruct (nth_error st (fst r)) as [e|] eqn:En; cbn [option_map fst snd].
+  - pose proof (state_ok_nth _ _ _ Hs En) as He.
+    destruct (match_entry_inv e (snd r) He) as [H1 [H2 [H3 [H4 H5]]]].
+    destruct (match_entry e (snd r)) as [e' b]. cbn [fst snd] in *.
+    split; [eapply view_update_nth; eauto|]. split; [now apply state_ok_update_nth|]. now rewrite H5.
+  - auto.
+Qed.
+
+Lemma step_inv : forall rs st, state_ok st = true ->
+  view (fst (step st rs)) = view st /\ state_ok (fst (step st rs)) = true
+  /\ snd (step st rs) = map (answer (view st)) rs.
+Proof.
+  induction rs as [|r rs IH]; intros st Hs; cbn [step map]; [auto|].
+  destruct (do_request_inv st r Hs) as [Hv [Hk Ha]].
+  destruct (do_request st r) as [st1 o]. cbn [fst snd] in *.
+  destruct (IH st1 Hk) as [Hv2 [Hk2 Ha2]].
+  destruct (step st1 rs) as [st2 os]. cbn [fst snd] in *.
+  split; [congruence|]. split; [assumption|]. rewrite Ha, Ha2, Hv. reflexivity.
+Qed.
+
+(* the invariant, over every reachable state *)
+Theorem history_invariant : forall init hist, state_ok init = true ->
+  let st := fold_left (fun s rs => fst (step s rs)) hist init in
+  view st = view init /\ state_ok st = true.
+Proof.
+  intros init hist. revert init. induction hist as [|rs hist IH]; intros init Hs; cbn [fold_left]; [auto|].
+  destruct (step_inv rs init Hs) as [Hv [Hk _]].
+  destruct (IH _ Hk) as [Hv2 Hk2]. split; [congruence|assumption].
+Qed.
+
+(* results do not depend on what was inspected before *)
+Theorem history_independent : forall init hist rs, state_ok init = true ->
+  snd (step (fold_left (fun s x => fst (step s x)) hist init) rs) = snd (step init rs).
+Proof.
+  intros init hist rs Hs.
+  destruct (history_invariant init hist Hs) as [Hv Hk].
+  destruct (step_inv rs _ Hk) as [_ [_ Ha]]. destruct (step_inv rs init Hs) as [_ [_ Hb]].
+  rewrite Ha, Hb, Hv. reflexivity.
+Qed.
+
+(* non-vacuity: a table whose slice has spare capacity really is written to, invisibly *)
+Example spare_capacity_written :
+  let e := {| ce_name := [80]; ce_basex := {| backing := [1; 2; 0; 0]; slen := 2 |}; ce_basey := [7; 8] |} in
+  state_ok [e] = true /\
+  backing (ce_basex (hd e (fst (step [e] [(0%nat, [1; 2; 7; 8])])))) = [1; 2; 7; 8] /\
+  snd (step [e] [(0%nat, [1; 2; 7; 8])]) = [Some true].
+Proof. vm_compute. repeat split. Qed.
+
+(* contrast: had the code appended to a slice and kept the LONGER slice in the table (visible
+   part grows), results would depend on history *)
+Definition bad_match (e : centry) (tail : bytes) : centry * bool :=
+  let joined := visible (ce_basex e) ++ ce_basey e in
+  ({| ce_name := ce_name e; ce_basex := {| backing := joined; slen := length joined |}; ce_basey := ce_basey e |},
+   bytes_eqb joined tail).
+
+Example visible_growth_would_break_it : exists e t,
+  snd (bad_match e t) <> snd (bad_match (fst (bad_match e t)) t).
+Proof.
+  exists {| ce_name := []; ce_basex := {| backing := [1]; slen := 1 |}; ce_basey := [2] |}, [1; 2].
+  vm_compute. discriminate.
+Qed.
